@@ -13,7 +13,7 @@ import ast
 import z3
 
 from vc.engine import Contract, Case, Lemma
-from vc.pyvc import Z, Obj, PyRaise, PathDone, Env, explore, PathCtx, _Return, is_native, Foreign
+from vc.pyvc import Z, Obj, PyRaise, PathDone, Env, explore, PathCtx, _Return, _Continue, _Break, is_native, Foreign
 from vc.sorts import CheckerError, parse_source
 
 REL = 'depccg/unification.py'
@@ -368,6 +368,10 @@ def loop_summary(I, st, env, module, qual):
         try:
             I.exec_block(st.body, e2, module, qual)
             out = ('normal', None)
+        except _Continue:
+            out = ('normal', None)            # `continue`: the iteration ends normally
+        except _Break:
+            raise CheckerError('break inside the loop summarised by the arbitrary-iteration rule')
         except _Return as r:
             out = ('return', r.v)
         except PyRaise as ex:
